@@ -66,3 +66,10 @@ impl<T: Copy> G<T> {
         std::hint::black_box(self.0)
     }
 }
+
+// after the impl blocks above (method declarations inside the struct DIEs): no linkage name
+#[no_mangle]
+#[inline(never)]
+pub extern "C" fn c17_ab_hook(x: u64) -> u64 {
+    std::hint::black_box(x) + 42
+}
